@@ -350,6 +350,8 @@ Proof.
   - intros H; inversion H; subst. apply keep_mono. apply keep_upd_actor; kp.
   - intros H; inversion H; subst. apply mono_refl.
   - intros H; inversion H; subst. apply mono_refl.
+  - (* SResumeReq *) destruct (a_st a); intros H; inversion H; subst; try apply mono_refl.
+    apply keep_mono, keep_deliver_sys.
 Qed.
 
 Lemma keep_process_user s u e s' o p : process_user roles s u e = (s', o, p) -> keep s s'.
